@@ -522,6 +522,20 @@ def check(ctx):
                     k = op_const(rv["op"])
                     if k and "str" in k:
                         lits.add(k["str"])
+        # the accepted names kept in a constant table / a matches! guard (syntax tree: constants of other items are not part of this body's MIR)
+        from srclib import literal_set_guard
+        vsf = S.fn("GenerateConfig", "validate")
+        if vsf is not None:
+            for e in walk_block(vsf.body):
+                conds_ = [e["cond"]] if e.get("k") == "if" and e["cond"].get("k") != "letcond" else []
+                if e.get("k") == "unary" and e.get("op") == "!":
+                    conds_.append(e["expr"])
+                for c_ in conds_:
+                    while c_.get("k") in ("paren",) or (c_.get("k") == "unary" and c_.get("op") == "!"):
+                        c_ = c_["expr"]
+                    g_ = literal_set_guard(S, c_)
+                    if g_ is not None:
+                        lits |= set(g_[1])
         if {"zod", "none"} <= lits and not (lits - {"zod", "none"} - {l for l in lits if " " in l or ":" in l}):
             r4.ok("validate accepts exactly {zod, none}")
         else:
